@@ -87,7 +87,7 @@ def walk(fn, valuation: Dict[str, bool], norm: Callable[[ast.AST], str], max_ste
             continue
         if node.kind == "return":
             v = a.value if a.value is not None else ast.Constant(value=None)
-            return ("return", _Sub(env).visit(clone(v)))
+            return ("return", _fold_ifexp(_Sub(env).visit(clone(v)), valuation, norm))
         if node.kind in ("raisestmt", "raise"):
             return ("raise", a)
         if node.kind == "iter":
@@ -161,3 +161,50 @@ def callable_text(v, norm) -> str:
     m = {p: f"_a{i}" for i, p in enumerate(params)}
     b = _Rename(m).visit(clone(body))
     return "lambda " + ",".join(m[p] for p in params) + ":" + norm(b)
+
+
+def _fold_ifexp(e, valuation, norm):
+    """`a if T else b` with T one of the atoms is the branch the valuation selects"""
+    class F(ast.NodeTransformer):
+        def visit_IfExp(self, n):
+            self.generic_visit(n)
+            core, flip = _strip_not(n.test)
+            t = norm(core)
+            if isinstance(core, ast.Constant):
+                v = bool(core.value)
+            elif t in valuation:
+                v = valuation[t]
+            else:
+                return n
+            v = (not v) if flip else v
+            return n.body if v else n.orelse
+    return F().visit(e)
+
+
+def walk_all(fn, valuation, norm, project=None, limit=64):
+    """like walk(), but a test that is not among the atoms is explored on both out-edges; returns the set of distinct outcomes
+    (kind, projected text). `project(expr)` selects the part of the returned expression the caller cares about."""
+    outcomes = set()
+    pending = [dict(valuation)]
+    seen = 0
+    while pending and seen < limit:
+        val = pending.pop()
+        seen += 1
+        kind, res = walk(fn, val, norm)
+        if kind == "unknown" and isinstance(res, str) and res.startswith("test `") and res.endswith("` is not one of the atoms"):
+            t = res[len("test `"):-len("` is not one of the atoms")]
+            for b in (True, False):
+                v2 = dict(val)
+                v2[t] = b
+                pending.append(v2)
+            continue
+        if kind == "return":
+            e = project(res) if project else res
+            outcomes.add((kind, norm(e) if e is not None else None))
+        elif kind == "loop":
+            outcomes.add((kind, None))
+        else:
+            outcomes.add((kind, res if isinstance(res, str) else None))
+    if pending:
+        outcomes.add(("unknown", "too many undetermined tests"))
+    return outcomes
